@@ -391,6 +391,27 @@ def _structured_body(stmts, make):
   return out
 
 
+def _fold_prefix(prefix, expr):
+  """expr with the single-assignment locals of `prefix` (x = E, each name assigned once, in order) substituted; None when
+  the prefix contains anything else."""
+  env = {}
+  for st in prefix:
+    if not (isinstance(st, ast.Assign) and len(st.targets) == 1 and isinstance(st.targets[0], ast.Name)) or st.targets[0].id in env:
+      return None
+
+    def sub(e):
+      if isinstance(e, ast.Name) and isinstance(e.ctx, ast.Load) and e.id in env:
+        return dataflow.clone(env[e.id])
+      return dataflow._map_children(e, sub) if isinstance(e, ast.AST) else e
+    env[st.targets[0].id] = sub(dataflow.clone(st.value))
+
+  def sub2(e):
+    if isinstance(e, ast.Name) and isinstance(e.ctx, ast.Load) and e.id in env:
+      return dataflow.clone(env[e.id])
+    return dataflow._map_children(e, sub2) if isinstance(e, ast.AST) else e
+  return sub2(dataflow.clone(expr))
+
+
 def helper_shape(h):
   """('expr', prefix, expr) | ('proc', stmts, None) | ('gen', stmts, None) | None."""
   body = _strip_doc(h.node.body)
@@ -650,6 +671,10 @@ class _Flattener:
         h, selfexpr = self.callee(info, x)
         if h is not None and self.is_helper(h) and h.node is not info.node:
           shape = helper_shape(h)
+          if shape and shape[0] == 'expr' and shape[1]:
+            folded = _fold_prefix(shape[1], shape[2])
+            if folded is not None:
+              shape = ('expr', [], folded, [ast.Return(value=folded)])
           if shape and shape[0] == 'expr' and not shape[1] and not self.stmt_only(shape):
             _counter[0] += 1
             b = _bind(h, x, selfexpr, 'e%d' % _counter[0], [], shape[2], self.taken)
